@@ -591,28 +591,63 @@ func (g *racGen) quant(n *XNode) gval {
 	g.env = env
 	defer func() { g.env = saved }()
 	var open, closeS []string
+	boundNames := map[string]bool{}
+	for _, b := range n.Bind {
+		boundNames[b.Name] = true
+	}
+	mentionsOtherBound := func(x *XNode, self string) bool {
+		for nm := range boundNames {
+			if nm != self && mentions(x, nm) {
+				return true
+			}
+		}
+		return false
+	}
+	// bounds that do not depend on other bound variables; a variable bounded only by another one (i < j && j < H) inherits its bound
+	los, his := map[string]string{}, map[string]string{}
+	for _, b := range n.Bind {
+		if !isInt(g.typeByName(b.Type)) {
+			continue
+		}
+		for _, c := range guard {
+			if c.Op != "binary" {
+				continue
+			}
+			l, r := c.Kids[0], c.Kids[1]
+			isV := func(x *XNode) bool { return x.Op == "ident" && x.Val == b.Name }
+			switch {
+			case c.Val == "<=" && isV(r) && !mentions(l, b.Name) && !mentionsOtherBound(l, b.Name):
+				los[b.Name] = g.big(g.gen(l))
+			case c.Val == "<" && isV(r) && !mentions(l, b.Name) && !mentionsOtherBound(l, b.Name):
+				los[b.Name] = "govcAdd(" + g.big(g.gen(l)) + `, govcS("1"))`
+			case c.Val == "<" && isV(l) && !mentions(r, b.Name) && !mentionsOtherBound(r, b.Name):
+				his[b.Name] = g.big(g.gen(r))
+			case c.Val == "<=" && isV(l) && !mentions(r, b.Name) && !mentionsOtherBound(r, b.Name):
+				his[b.Name] = "govcAdd(" + g.big(g.gen(r)) + `, govcS("1"))`
+			}
+		}
+	}
+	for round := 0; round < 3; round++ {
+		for _, c := range guard {
+			if c.Op != "binary" || (c.Val != "<" && c.Val != "<=") || c.Kids[0].Op != "ident" || c.Kids[1].Op != "ident" {
+				continue
+			}
+			a, b := c.Kids[0].Val, c.Kids[1].Val
+			if boundNames[a] && boundNames[b] {
+				if _, ok := his[a]; !ok && his[b] != "" {
+					his[a] = his[b]
+				}
+				if _, ok := los[b]; !ok && los[a] != "" {
+					los[b] = los[a]
+				}
+			}
+		}
+	}
 	for _, b := range n.Bind {
 		t := g.typeByName(b.Type)
 		switch {
 		case isInt(t):
-			lo, hi := "", ""
-			for _, c := range guard {
-				if c.Op != "binary" {
-					continue
-				}
-				l, r := c.Kids[0], c.Kids[1]
-				isV := func(x *XNode) bool { return x.Op == "ident" && x.Val == b.Name }
-				switch {
-				case c.Val == "<=" && isV(r) && !mentions(l, b.Name):
-					lo = g.big(g.gen(l))
-				case c.Val == "<" && isV(r) && !mentions(l, b.Name):
-					lo = "govcAdd(" + g.big(g.gen(l)) + `, govcS("1"))`
-				case c.Val == "<" && isV(l) && !mentions(r, b.Name):
-					hi = g.big(g.gen(r))
-				case c.Val == "<=" && isV(l) && !mentions(r, b.Name):
-					hi = "govcAdd(" + g.big(g.gen(r)) + `, govcS("1"))`
-				}
-			}
+			lo, hi := los[b.Name], his[b.Name]
 			if lo == "" || hi == "" {
 				g.fail("no executable bounds for bound variable %s", b.Name)
 			}
